@@ -478,6 +478,12 @@ def evaluate(ctx, pid, scheds, rows, crashes, states, trans, mc_notes, convs=(),
     for f in fails:
         if f["what"] == "C16.ConvFresh" and (f["sid"] not in first_strict or f["n"] < first_strict[f["sid"]]["n"]):
             first_strict[f["sid"]] = f
+    # a restart on a copy of the directory shows the stale entries the killed process already had: same cause as there
+    for f in fails:
+        if f["what"] == "C16.ConvFresh" and f.get("info") == "inherited":
+            parent = first_strict.get(f["sid"].split("#")[0])
+            if parent is not None and parent is not f:
+                f["a"], f["info"] = parent["a"], parent.get("info", "") if parent.get("info") != "inherited" else ""
     for f in fails:
         if f["what"] == "C16.ConvFreshAtRest":
             fs = first_strict.get(f["sid"], f)
